@@ -126,9 +126,34 @@ def helper_units(variant):
         pre = "helpers/%s" % variant
         RP = dict(kind="helper", variant=variant)
 
+        framed = {}
+
         def F(name):
-            f = getattr(H, name)
-            return f, ctx.function(f, variant=variant)
+            f0 = getattr(H, name)
+            fnrec = ctx.function(f0, variant=variant)
+
+            def snap(a):
+                out = []
+                arrs = [a] + [getattr(a, att, None) for att in ("grad", "div", "curl", "hess", "grad3", "grad4")]
+                for x in arrs:
+                    if isinstance(x, np.ndarray):
+                        out.append((x, x.copy()))
+                return out
+
+            def f(*args, **kw):
+                before = [sn for a in args for sn in snap(a)]
+                r = f0(*args, **kw)
+                same = all(x.shape == c_.shape and all(x[ix] is c_[ix] or (not isinstance(x[ix], S) and x[ix] == c_[ix]) for ix in np.ndindex(*x.shape)) for x, c_ in before)
+                alias = any(r is x for x, _ in before) if isinstance(r, np.ndarray) else False
+                key = (name, same, alias)
+                if key not in framed:
+                    framed[key] = True
+                    ctx.fact("%s/%s/frame%s" % (pre, name, "" if same and not alias else "-%d" % len(framed)), fnrec, same,
+                             "the helper modified one of its operands (value or a derivative field) in place",
+                             clause="operands (and their grad/hess/... fields) are unchanged after the call: a later helper on the same field sees the same data",
+                             replay=dict(RP, name=name, frame=True))
+                return r
+            return f, fnrec
         with pmode.symbolic_numpy(prefixes=("skfem",)):
             for d in (2, 3):
                 u, v, w = T("u", (d,)), T("v", (d,)), T("w", (d,))
